@@ -155,7 +155,8 @@ TrailingWs(new, R, p) ==
      \/ /\ (Blank(rest) \/ rest[Indent(rest) + 1] = 35)
         /\ (c1 = 0 \/ (c1 <= Len(ll) /\ IsWs(ll[c1])))
 
-(* a ';' is the first thing after the rectangle on its line                    *)
+(* a ';' is the first thing after the rectangle (or after the enclosing         *)
+(* statement) on its line                                                      *)
 SemiAfter(tx, R) ==
   LET ll == Line(tx, R[3])  rest == SubSeq(ll, R[4] + 1, Len(ll))
   IN ~Blank(rest) /\ rest[Indent(rest) + 1] = 59
@@ -193,7 +194,7 @@ FxPart(tx, new, T, P, i, R, p) ==
   \o Flag(IndentChange(tx, new, R, p), "indent")
   \o Flag(BlanksLine(tx, new, R), "blankln")
   \o Flag(TrailingWs(new, R, p), "tws")
-  \o Flag(SemiAfter(tx, R), "semiafter")
+  \o Flag(SemiAfter(tx, R) \/ (i # 0 /\ SemiAfter(tx, <<P[i][2], P[i][3], P[i][4], P[i][5]>>)), "semiafter")
   \o Flag(HasAny(p, 35), "hash")
   \o Flag(HasAny(p, 59) \/ HasAny(RectText(tx, R), 59), "semi")
   \o Flag(Bslash(tx, new, R, p), "bslash")
